@@ -220,17 +220,6 @@ theorem parseBitVector_digits (s : String) (width : Option Nat) (tag : Char) (nu
 
 /-! ## decimal literals -/
 
-/-- the number a decimal digit string spells (`strtoull`, before its range check) -/
-def decValue (num : List Char) : Nat := num.foldl (fun a c => a * 10 + (c.toNat - '0'.toNat)) 0
-
-/-- `d` literals: the number in exactly as many bits as it needs (`Log2C(n+1)`; 64 for 2^64-1), or in the explicit width -/
-def specDec (num : List Char) (width : Option Nat) : Option (List (Option Bool)) :=
-  let n := decValue num
-  if n ≥ 2^64 then none else
-  let w := if n = 2^64 - 1 then 64 else log2c (n + 1)
-  let size := match width with | none => w | some 0 => w | some W => W
-  if size < w then none else some ((List.range size).map fun i => some (n.testBit i))
-
 theorem bit_foldAssign (f : Nat → Bool) (w : Nat) (v : Plane) (hw : w ≤ 64 * v.length) (p : Nat) :
     (bit ((List.range w).foldl (fun v i => assignBit v i (f i)) v) p = if p < w then f p else bit v p) ∧
     ((List.range w).foldl (fun v i => assignBit v i (f i)) v).length = v.length := by
@@ -359,5 +348,101 @@ theorem parseBitVector_dec (s : String) (width : Option Nat) (num : List Char) (
   by_cases hok : num.all isDigit = true
   · simp only [hok, if_true]; exact parseDec_spec num width
   · simp only [hok, if_false, Bool.false_eq_true, resultBits]
+
+
+/-! ## string literals and the whole literal syntax -/
+
+theorem parseStr_implicit (str : List Char) (v0 d0 : Plane) :
+    parseStr str (0, v0, d0) =
+      .ok (str.length * 8)
+        ((List.range (str.length * 8)).foldl (fun v i => assignBit v i ((str.getD (i / 8) ' ').toNat.testBit (i % 8))) (resizePlane v0 (str.length * 8)))
+        (setRange (resizePlane d0 (str.length * 8)) 0 (str.length * 8) true) := by
+  unfold parseStr
+  simp only [beq_self_eq_true, if_true, Nat.lt_irrefl, if_false]
+
+theorem parseStr_explicit (str : List Char) (W : Nat) (v0 d0 : Plane) :
+    parseStr str (W + 1, v0, d0) = if W + 1 < str.length * 8 then .designError else
+      .ok (W + 1)
+        ((List.range (str.length * 8)).foldl (fun v i => assignBit v i ((str.getD (i / 8) ' ').toNat.testBit (i % 8))) v0)
+        (setRange d0 0 (str.length * 8) true) := by
+  unfold parseStr
+  have hne : (W + 1 == 0) = false := by simp
+  simp only [hne, Bool.false_eq_true, if_false]
+
+theorem parseStr_core (f : Nat → Bool) (w size : Nat) (v d : Plane) (hsz : w ≤ size)
+    (hv : size ≤ 64 * v.length) (hd : size ≤ 64 * d.length)
+    (hv0 : ∀ p, p < size → bit v p = false) (hd0 : ∀ p, w ≤ p → p < size → bit d p = true) :
+    resultBits (.ok size ((List.range w).foldl (fun v i => assignBit v i (f i)) v) (setRange d 0 w true)) =
+      some ((List.range size).map fun i => some (decide (i < w) && f i)) := by
+  simp only [resultBits, Option.some.injEq]
+  apply List.map_congr_left
+  intro p hp
+  simp only [List.mem_range] at hp
+  rw [(bit_foldAssign _ w v (by omega) p).1, bit_setRange _ _ _ _ _ (by unfold InRange; omega)]
+  by_cases hpw : p < w
+  · simp [hpw]
+  · simp [hpw, hd0 p (by omega) hp, hv0 p hp]
+
+theorem parseStr_zero (str : List Char) (v0 d0 : Plane) (h0 : v0.length = 0) :
+    resultBits (parseStr str (0, v0, d0)) = specStr str none := by
+  rw [parseStr_implicit]
+  unfold specStr
+  simp only [Nat.lt_irrefl, if_false]
+  exact parseStr_core _ _ _ _ _ (Nat.le_refl _) (by rw [resizePlane_length]; exact len_bound _)
+    (by rw [resizePlane_length]; exact len_bound _)
+    (fun p _ => by rw [bit_resizePlane, bit_of_ge v0 p (by omega)]; simp) (fun p h1 h2 => by omega)
+
+theorem parseStr_spec (str : List Char) (width : Option Nat) :
+    resultBits (parseStr str (initState width)) = specStr str width := by
+  cases width with
+  | none => simpa [initState] using parseStr_zero str [] [] rfl
+  | some W =>
+    cases W with
+    | zero =>
+      have := parseStr_zero str (setRange (resizePlane [] 0) 0 0 false) (setRange (resizePlane [] 0) 0 0 true)
+        (by rw [setRange_length, resizePlane_length])
+      simpa [initState, specStr] using this
+    | succ W =>
+      unfold initState
+      rw [parseStr_explicit]
+      unfold specStr
+      simp only
+      by_cases hsz : W + 1 < str.length * 8
+      · simp [hsz, resultBits]
+      · simp only [hsz, if_false]
+        have hlen : ∀ b, (setRange (resizePlane [] (W + 1)) 0 (W + 1) b).length = (W + 1 + 63) / 64 := by
+          intro b; rw [setRange_length, resizePlane_length]
+        have hin : InRange (resizePlane [] (W + 1)) 0 (W + 1) := by
+          unfold InRange; rw [resizePlane_length]; have := len_bound (W + 1); omega
+        exact parseStr_core _ _ (W + 1) _ _ (by omega) (by rw [hlen]; exact len_bound _) (by rw [hlen]; exact len_bound _)
+          (fun p hp => by rw [bit_setRange _ _ _ _ _ hin]; simp [hp])
+          (fun p _ hp => by rw [bit_setRange _ _ _ _ _ hin]; simp [hp])
+
+/-- **Every literal.** -/
+theorem parseBitVector_spec (s : String) : resultBits (parseBitVector s) = specLiteral s := by
+  unfold parseBitVector specLiteral
+  generalize splitWidth s.toList = sw
+  obtain ⟨width, rest⟩ := sw
+  have h4 := parseDigits_spec 4 (by omega) (by omega)
+  have h3 := parseDigits_spec 3 (by omega) (by omega)
+  have h1 := parseDigits_spec 1 (by omega) (by omega)
+  simp only
+  split
+  · exact parseStr_spec _ _
+  · by_cases hok : List.all ‹List Char› (digitOk 4) = true
+    · simp only [hok, if_true]; exact h4 _ _
+    · simp [hok, resultBits]
+  · by_cases hok : List.all ‹List Char› (digitOk 3) = true
+    · simp only [hok, if_true]; exact h3 _ _
+    · simp [hok, resultBits]
+  · by_cases hok : List.all ‹List Char› (digitOk 1) = true
+    · simp only [hok, if_true]; exact h1 _ _
+    · simp [hok, resultBits]
+  · by_cases hok : List.all ‹List Char› isDigit = true
+    · simp only [hok, if_true]; exact parseDec_spec _ _
+    · simp [hok, resultBits]
+  · rename_i hs hx ho hb hd
+    simp only [resultBits]
+
 
 end Gatery.C18
